@@ -3,3 +3,4 @@ open GrVerif.Props.C10
 #print axioms preload_eq_lazy
 #print axioms preload_fails_iff_some_glyph_unreadable
 #print axioms cmap_option_does_not_change_glyphs
+#print axioms preloading_changes_no_glyph_or_box
